@@ -89,7 +89,7 @@ func (c clientCodec) Decode(response []byte, context *ClientContext) (result []i
 			tag = decoder.NextByte()
 			count := 1
 			if tag == io.TagList {
-				count = decoder.ReadInt()
+				count = decoder.ReadCount()
 				decoder.AddReference(nil)
 				for i := 0; i < n && i < count; i++ {
 					results[i] = decoder.Read(returnType[i])
